@@ -34,7 +34,16 @@ def main() -> int:
     try:
         mod = importlib.import_module(prop.lower())
         if a.replay:
-            return int(mod.replay(ctx, a.replay) or 0)
+            import json
+            data = json.load(open(a.replay))
+            print(f"replay of {a.replay}: property={data.get('property')} formula={data.get('formula')}")
+            print(f"  {data.get('detail', '')[:1500]}")
+            fn = getattr(mod, "replay", None)
+            if fn is None:
+                print("  this property has no single-scenario replay: the file holds the generating parameters "
+                      "(sequence / history / ids / seed); re-run ./check " + prop + " to reproduce")
+                return 0
+            return int(fn(ctx, data.get("replay") or {}) or 0)
         mod.run(ctx)
         return checklib.finish(ctx, getattr(mod, "LEVEL", "model_checking"))
     except tlc.MachineryError as ex:
